@@ -1,5 +1,5 @@
 (** Correspondence and monitors for C13 (@defer changes delivery, not content). *)
-From GV Require Import Base.Prelude Model.Exec Model.Defer Corr.Corr_C01.
+From GV Require Import Base.Prelude Model.Exec Model.Defer Model.DeferProto Corr.Corr_C01.
 Open Scope string_scope.
 Open Scope list_scope.
 
@@ -34,9 +34,59 @@ Fixpoint multiset_match (ms : list payload) (os : list obs_payload) {struct ms} 
 
 (** correspondence: the initial payload is the model's, the incremental payloads are the model's as a
     multiset (arrival order is scheduling) *)
+(** ---- the observed payload sequence is a behaviour of the delivery protocol (Model.DeferProto) ---- *)
+Fixpoint is_proper_prefix (a b : path) {struct a} : bool :=
+  match a, b with
+  | [], _ :: _ => true
+  | x :: a', y :: b' => pseg_eqb x y && is_proper_prefix a' b'
+  | _, _ => false
+  end.
+(** groups in the model's (parents first) order, numbered from 1; a group whose path extends the path of an
+    earlier group is started while that group runs, the others by the initial execution *)
+Definition model_groups (c : defer_case) : list (path * string) :=
+  match model_payloads c with _ :: r => map (fun p => (pl_path p, pl_label p)) r | [] => [] end.
+Fixpoint start_labels (before : list (nat * path)) (i : nat) (gs : list (path * string)) {struct gs} : list plabel :=
+  match gs with
+  | [] => []
+  | (p, _) :: r =>
+      let l := match find (fun jp => is_proper_prefix (snd jp) p) before with
+               | Some jp => LStartNested (fst jp) i
+               | None => LStartRoot i
+               end in
+      l :: start_labels ((i, p) :: before) (S i) r
+  end.
+Fixpoint index_groups (i : nat) (gs : list (path * string)) {struct gs} : list (nat * (path * string)) :=
+  match gs with [] => [] | g :: r => (i, g) :: index_groups (S i) r end.
+(** each observed incremental payload is one of the groups, none twice *)
+Fixpoint assign (gs : list (nat * (path * string))) (used : list nat) (obs : list obs_payload) {struct obs} : option (list nat) :=
+  match obs with
+  | [] => Some []
+  | o :: r =>
+      match find (fun g => negb (mem (fst g) used) && Corr_C01.path_eqb (fst (snd g)) (op_path o) && String.eqb (snd (snd g)) (op_label o)) gs with
+      | Some g => option_map (cons (fst g)) (assign gs (fst g :: used) r)
+      | None => None
+      end
+  end.
+Definition obs_flag (o : obs_payload) : bool := match op_has_next o with Some true => true | _ => false end.
+Definition proto_accepts (c : defer_case) : bool :=
+  match dc_payloads c with
+  | [] => false
+  | _ :: orest =>
+      let gs := model_groups c in
+      match assign (index_groups 1 gs) [] orest with
+      | None => false
+      | Some order =>
+          let tr := start_labels [] 1 gs ++ [LInitDone] ++ flat_map (fun g => [LFinish g; LReceive g]) order ++ [LEnd] in
+          match prun pinit tr with
+          | Some s => list_eqb Bool.eqb (map snd (ps_out s)) (map obs_flag (dc_payloads c))
+          | None => false
+          end
+      end
+  end.
+
 Definition defer_corr (c : defer_case) : bool :=
   match model_payloads c, dc_payloads c with
-  | mi :: mrest, oi :: orest => payload_eqb mi oi && multiset_match mrest orest
+  | mi :: mrest, oi :: orest => payload_eqb mi oi && multiset_match mrest orest && proto_accepts c
   | _, _ => false
   end.
 
